@@ -342,7 +342,7 @@ CHECK_DEADLOCK FALSE
 """ % (family, "TRUE" if emit else "FALSE", EVAL_INV)
 
 
-def eval_check(run, fams, rule, assumptions=None, traces=False):
+def eval_check(run, fams, rule, assumptions=None, traces=False, trace_also=()):
     sts = run.tlc_many([dict(module="MC_Eval", cfg=eval_cfg(fam), name="MC_Eval_" + fam, timeout=3000, workers=2)
                         for fam in fams])
     paths = []
@@ -353,7 +353,7 @@ def eval_check(run, fams, rule, assumptions=None, traces=False):
         run.replay("render", path, name="render-" + fam, env={"TWH_ALSO_TEMPLATE": "1"})
         run.add_samples(path, 1)
     if traces and not run.results:      # with a violation already found the replay decides; traces need programs that end
-        env_traces(run, run.prop, paths, max_per_file=1500 if run.tier == "quick" else 0)
+        env_traces(run, run.prop, paths + list(trace_also), max_per_file=1500 if run.tier == "quick" else 0)
         rule += ("; plus trace validation of the scope machine: every scope creation, Set, SetLoopVar and identifier lookup "
                  "recorded from the real evaluator on these programs and on the inputs of the repository's own tests is "
                  "stepped against spec/Trace_Env.tla by TLC, which predicts each logged result from the reconstructed "
@@ -399,6 +399,7 @@ def c04(run):
     st = run.tlc("MC_Link", link_cfg("c04comp"), name="MC_Link_c04comp", timeout=3000, workers=2)
     path, n = run.records(st)
     run.replay("tree", path, name="tree-c04comp")
+    c04comp = path
     return eval_check(run, fams,
                       "assignments and reads of names x, y with values of six types before / inside / after each of 9 "
                       "block skeletons (flat, if, else, each, for, each-in-if, loops binding x itself) x 4 data maps "
@@ -406,7 +407,7 @@ def c04(run):
                       "of names bound inside it; component uses with arguments followed by reads of the argument names "
                       "(unknown afterwards, an outer variable of that name keeps its value, two uses with different "
                       "types); TLC checks TypeStable, LoopReserved, ScopeBalance on every state",
-                      traces=True)
+                      traces=True, trace_also=[c04comp])
 
 
 # ------------------------------------------------------------------ C10, C13
